@@ -261,3 +261,89 @@ def s04b_full_window_scans(ctx):
             r.sample({'method': short, 'window scans in next()': scans, 'truncating adaptors': 0})
     r.floor('selection methods', 5, n)
     return r
+
+
+def s04c_eviction_test(ctx):
+    """C04: a cached extremum may be kept only after the element that just left the window was compared with it (bit equality), unless
+    the new input replaced it or the window was rescanned: a must-pass-through rule on every returning path of next()."""
+    from paths import all_path_facts
+    f = ctx.facts('default')
+    m = Model(f)
+    r = RuleResult('S04c', 'Highest / Lowest / HighestLowestDelta: on every returning path of next() each cached extremum is either replaced by the input, '
+                           'recomputed by a window scan, or kept after testing whether the evicted element (the value push() returned) was that extremum')
+    want = {'Highest': ('value',), 'Lowest': ('value',), 'HighestLowestDelta': ('highest', 'lowest')}
+    n = 0
+
+    def strip(t):
+        while isinstance(t, tuple) and t and t[0] in ('ref', 'deref'):
+            t = t[1]
+        return t
+
+    def mentions_field(t, fld):
+        return any(isinstance(x, tuple) and x and x[0] == 'field' and x[2] == fld and strip(x[1])[0] == 'arg' and strip(x[1])[1] == 1 for x in walk_tree(t))
+
+    def from_push(t):
+        return any(isinstance(x, tuple) and x and x[0] == 'call' and (x[4].endswith('Window::<T>::push') or ('::window::Window' in x[4] and x[4].endswith('::push'))) for x in walk_tree(t))
+
+    def scans_window(t):
+        return any(isinstance(x, tuple) and x and x[0] == 'call' and (x[4].endswith('::fold') or x[4].endswith('::max_by') or x[4].endswith('::min_by') or x[4].endswith('::reduce')) for x in walk_tree(t))
+
+    for i in m.method_impls:
+        short = m.short(i)
+        if short not in want:
+            continue
+        b = m.body(m.impl_fn_path(i, 'next'))
+        if b is None:
+            raise Broken('no body for %s::next' % short)
+        pfs = [pf for pf in all_path_facts(b) if pf.returns]
+        for fld in want[short]:
+            n += 1
+            key = '%s.%s' % (short, fld)
+            r.inst(key)
+            bad = None
+            kinds = {'replaced': 0, 'rescanned': 0, 'kept-after-eviction-test': 0}
+            for pf in pfs:
+                replaced = rescanned = False
+                for pl, tree, line in pf.stores:
+                    fp = self_field_of_place_(pl)
+                    if fp == [fld]:
+                        t = strip(tree)
+                        if t[0] == 'arg' and t[1] >= 2:
+                            replaced = True
+                        elif scans_window(tree) or (t[0] in ('field', 'local') and scans_window(tree)):
+                            rescanned = True
+                        else:
+                            rescanned = rescanned or any(scans_window(tr) for _, tr, _ in pf.calls)
+                tested = False
+                for d, vals, blk, allv in pf.decisions:
+                    if d[0] == 'bin' and d[1] in ('Eq', 'Ne') and all(strip(x)[0] == 'call' and strip(x)[4].endswith('::to_bits') for x in (d[2], d[3])):
+                        sides = (d[2], d[3])
+                        if (mentions_field(sides[0], fld) and from_push(sides[1])) or (mentions_field(sides[1], fld) and from_push(sides[0])):
+                            tested = True
+                        # the input is bit-equal to the cached extremum: the cache is (still) the value of an element inside the window
+                        is_true = (not (vals != 'otherwise' and 0 in vals)) if d[1] == 'Eq' else (vals != 'otherwise' and 0 in vals)
+                        for x, y in (sides, sides[::-1]):
+                            if is_true and mentions_field(x, fld) and not from_push(y) and any(isinstance(z, tuple) and z and z[0] == 'arg' and z[1] >= 2 for z in walk_tree(y)):
+                                replaced = True
+                if replaced:
+                    kinds['replaced'] += 1
+                elif rescanned:
+                    kinds['rescanned'] += 1
+                elif tested:
+                    kinds['kept-after-eviction-test'] += 1
+                else:
+                    bad = pf
+                    break
+            if bad is not None:
+                r.violate(key + '|kept-without-eviction-test', '%s::next has a path that keeps the cached `%s` without having compared the evicted element with it '
+                          '(decisions on that path: %s): when the evicted element was the sole %s the cache goes stale' % (
+                              short, fld, '; '.join(tree_str(d)[:40] for d, _, _, _ in bad.decisions[:4]), fld), b.file, b.line)
+            else:
+                r.sample({'cache': key, 'paths': kinds})
+    r.floor('cached extrema', 4, n)
+    return r
+
+
+def self_field_of_place_(pl):
+    from mir import self_field_of_place
+    return self_field_of_place(pl)
